@@ -24,11 +24,22 @@ prop("C02", "fault_enumeration",
      "directional keys, c2s != s2c, non-zero, and no key ever repeats within the process; an already completed other session keeps the keys both of its "
      "parties agreed on. A violation found under a non-default policy of the completing party is re-run under the default policies: the "
      "signature names the policy only if the default policy rejects the same alteration. Non-trivial = an altered run; distinct "
-     "by (mode, message, kind, offset, mask, length, identity, policies).",
+     "by (mode, message, kind, offset, mask, length, identity, policies). "
+     "Send faults and retries are a dimension of their own (unit retry, enumerated completely): sequences of 2 and 3 handshake attempts of fresh clients "
+     "against ONE server on an otherwise faithful network; in the first (and optionally the second) attempt exactly one handshake datagram of either party "
+     "- every datagram of both modes - is not sent: the socket write returns an error (simnet write gate, ENOBUFS) or the datagram is lost; the next "
+     "attempt is a completely new handshake from the SAME address (the server may still track the failed attempt) or another address, with the same or the "
+     "other client identity, immediately / 2.5 s / 6 s after the previous attempt ended (client HSTimeout 2 s, server HandshakeTimeout 5 s: within and after "
+     "the timeout). Attempts run one after the other to quiescence, so the sessions the server offers to Accept during attempt i are its completions of "
+     "handshake i. Oracle: if the client of attempt i reports success, every session the server completed during that attempt holds the client's session "
+     "id and directional keys; a matching pair exchanges one message each way through the public API (client WriteMsg -> handle ReadMsg and back); all keys "
+     "of all completed sessions of the sequence are non-zero, direction-separated and never repeat; an unfaulted FIRST handshake completes on both sides "
+     "(retries that the server refuses are only labelled). Non-trivial = a sequence in which a fault was applied and a retry ran.",
      ["ML-KEM, X25519, Ed25519 and the Cyclist duplex are not attacked by search; alterations are structural",
       "client HSTimeout 2 s / server HandshakeTimeout 5 s (virtual) turn a dropped continuation into an error"],
      [dict(name="sweep", pkg="transport", run="^TestVerifC02Sweep$", shards=dict(quick=16, thorough=16), timeout=dict(quick=900, thorough=7200)),
-      dict(name="random", pkg="transport", run="^TestVerifC02Random$", shards=dict(quick=8, thorough=16), thorough_scale=600)],
+      dict(name="random", pkg="transport", run="^TestVerifC02Random$", shards=dict(quick=8, thorough=16), thorough_scale=600),
+      dict(name="retry", pkg="transport", run="^TestVerifC02Retry$", shards=dict(quick=8, thorough=8))],
      exhaustive_core=True,
      text="Fault enumeration over the handshake wire: one altered datagram per run, enumerated over messages x offsets x masks / "
           "truncation lengths / transplants / session ids of other live sessions, under each certificate policy of the receiver, with white-box comparison of the session keys of every completed pair.",
